@@ -83,9 +83,15 @@ def judge_case(col: common.Collector, ll: codecrun.LoadedLayer, msg: Dict[str, A
         # width of an implicit length key is implementation defined: decode instead of predict
         k2, dec = codecrun.ref_decode(ll.ref, msg, o.value, request)
         col.count("implicit-key-cases")
-        if k2 == "ok" and not all(refodx.values_equal(dec[0].get(k), v) for k, v in values.items()
-                                  if not isinstance(v, (dict, list, tuple))):
+        if k2 == "ok" and not codecrun.requested_in(dec[0], values):
             bad("pdu-not-decodable-by-reference", f"reference reads {dec[0]!r}")
+        elif k2 in ("short", "mismatch", "mismatch-leading", "invalid") and not o.overlap_warnings:
+            bad("pdu-not-decodable-by-reference", f"reference cannot read the PDU back: {k2}: {dec}")
+        elif k2 == "ok" and o.overlap_warnings and not enc.overlap and not enc.endmarker:
+            bad("overlap-warning-spurious", "overlap warning although no bit is claimed twice")
+        elif k2 != "ok" and o.overlap_warnings and not enc.overlap and not enc.endmarker:
+            bad("overlap-warning-spurious", f"overlap warning although no bit is claimed twice "
+                f"(and the reference cannot read the PDU back: {k2})")
         return
     if o.value != enc.pdu:
         bad("pdu-differs", f"odxtools {o.value.hex()} reference {enc.pdu.hex()}")
